@@ -69,7 +69,10 @@ def cases(draw, big_uint64=False):
             vals = [None if bv is None else draw(st.integers(1, 50)) for bv in base_vals]  # only where the bucket was initialised
         else:
             dt = draw(st.sampled_from(["float64", "float64", "float32", "float16"])) if b in ("photon", "photon3d", "signal") else "float64"
-            vals = draw(st.lists(st.one_of(st.none(), st.integers(1, 250)), min_size=n, max_size=n))
+            elem = st.one_of(st.none(), st.integers(1, 250))
+            if b in ("photon", "pixel", "signal"):  # non-finite content must be recorded as it is
+                elem = st.one_of(st.none(), st.integers(1, 250), st.integers(1, 250), st.integers(1, 250), st.sampled_from(["nan", "inf", "mix"]))
+            vals = draw(st.lists(elem, min_size=n, max_size=n))
         plan[b] = {"dtype": dt, "values": vals}
         if b == "photon3d":
             plan[b]["nw"] = draw(st.integers(2, 3))
